@@ -481,7 +481,28 @@ def r_determinism():
     lib.write_gen("DeterminismTables", "\n".join(out))
 
 
+def constraint_tables():
+    lib.ensure_repo_on_path()
+    from datamodel_code_generator.model.pydantic.types import DataTypeManager as V1
+    from datamodel_code_generator.model.pydantic_v2.types import DataTypeManager as V2
+    from datamodel_code_generator.model.pydantic.types import number_kwargs, string_kwargs
+    return {"v1": sorted(V1().kwargs_schema_to_model.items()), "v2": sorted(V2().kwargs_schema_to_model.items()),
+            "number_kwargs": sorted(number_kwargs), "string_kwargs": sorted(string_kwargs)}
+
+
+def r_constraints():
+    t = constraint_tables()
+    S = coq_string
+    out = ["(* GENERATED on every run from model/pydantic/types.py and model/pydantic_v2/types.py. *)\nFrom Coq Require Import List String.\nImport ListNotations.\nOpen Scope string_scope.\n"]
+    for k in ("v1", "v2"):
+        out.append(f"Definition kw_table_{k} : list (string * string) := [" + "; ".join(f"({S(a)}, {S(b)})" for a, b in t[k]) + "].\n")
+    out.append("Definition number_kwargs : list string := [" + "; ".join(S(x) for x in t["number_kwargs"]) + "].\n")
+    out.append("Definition string_kwargs : list string := [" + "; ".join(S(x) for x in t["string_kwargs"]) + "].\n")
+    lib.write_gen("ConstraintTables", "\n".join(out))
+
+
 REFLECTORS = {
+    "ConstraintTables": r_constraints,
     "DeterminismTables": r_determinism,
     "FieldTable": r_field_table,
     "AtomicTables": r_atomic,
